@@ -464,9 +464,10 @@ class FakePkgs:
         return self.repo.package_class(*VersionedCPV(f"cat/{name}-1").key.split("/"), "1")
 
 
-def real_sessions(chk, P):
+def real_sessions(chk, P, repo=None):
     """[(name, Session)] — every session is stopped; traces are in session.rec"""
-    repo = make_repo(chk)
+    if repo is None:
+        repo = make_repo(chk)
     ec = repo.eclass_cache
     pkg = lambda n: repo._repo.package_class("cat", n, "1")  # noqa: E731
     out = []
@@ -1046,14 +1047,19 @@ def main(chk: Check):
                 import traceback
                 scanned["ipc_error"] = traceback.format_exc()[-2000:]
     ipc_fails = []
+    # the test repository (and with it every lazy import of pkgcore's repository machinery) is built
+    # BEFORE the helper thread starts: module imports must not run while another thread opens and
+    # closes pipe descriptors (a run of VERIF_SEED=33 once died with EBADF inside importlib)
+    repo0 = make_repo(chk)
     bash_thread = threading.Thread(target=_bash, daemon=True)
     bash_thread.start()
+    bash_thread.join(900)   # not beside the daemon sessions: keeps descriptor traffic of the two apart
     old_int, old_term = signal.getsignal(signal.SIGINT), signal.getsignal(signal.SIGTERM)
     real_signal = P.signal
     P.signal = _NoAlarm()
     chk.note("expect(timeout=10)'s interval timer is not armed during the sessions (timers are outside the line model)")
     try:
-        sessions = real_sessions(chk, P)
+        sessions = real_sessions(chk, P, repo0)
     finally:
         P.signal = real_signal
         signal.signal(signal.SIGINT, old_int)
